@@ -24,6 +24,7 @@ NAN = float("nan")
 
 def learners(seed):
     from sklearn.linear_model import LinearRegression
+    from sklearn.ensemble import RandomForestClassifier, RandomForestRegressor
     from sklearn.mixture import GaussianMixture
     from sklearn.naive_bayes import GaussianNB
     from skactiveml.classifier import MixtureModelClassifier, ParzenWindowClassifier, SklearnClassifier, SlidingWindowClassifier
@@ -41,6 +42,8 @@ def learners(seed):
         ("NadarayaWatsonRegressor", lambda: NadarayaWatsonRegressor(random_state=seed), "reg", ("metric", "rbf")),
         ("SklearnRegressor[LinearRegression]", lambda: SklearnRegressor(LinearRegression(), random_state=seed), "reg", ("estimator__fit_intercept", False)),
         ("SklearnNormalRegressor[BayesianRidge]", lambda: SklearnNormalRegressor(BayesianRidge(), random_state=seed), "reg", ("estimator__alpha_1", 1e-5)),
+        ("SklearnClassifier[RandomForest,warm_start]", lambda: SklearnClassifier(RandomForestClassifier(n_estimators=4, warm_start=True, random_state=seed), classes=cl, random_state=seed), "clf", ("estimator__n_estimators", 4)),
+        ("SklearnRegressor[RandomForest,warm_start]", lambda: SklearnRegressor(RandomForestRegressor(n_estimators=4, warm_start=True, random_state=seed), random_state=seed), "reg", ("estimator__n_estimators", 4)),
         # dictionary- / array- / list-valued parameters given explicitly, multi-annotator classifiers (two annotators)
         ("ParzenWindowClassifier[gamma=0.5,prior vector,cost matrix]", lambda: ParzenWindowClassifier(classes=cl, metric_dict={"gamma": 0.5}, class_prior=[0.5, 1.5],
                                                                                                  cost_matrix=np.array([[0.0, 1.0], [2.0, 0.0]]), random_state=seed), "clf", ("n_neighbors", 3)),
